@@ -166,4 +166,20 @@ theorem logicalNames_resolved' (fs : List FsEnt) (name r : Path) (e : FsEnt)
     · have : cleanAbs name = name := by simpa using hc
       simp [this]
 
+/-- with only real directories above it a path is acted on where it is written
+(the auditor's lemma, scratch/C14/t4.lean) -/
+theorem parentsReal_acts_in_place (fs : List FsEnt) (p : Path) (h : ParentsReal fs p) :
+    ∀ e ∈ fs, throughLink e p = p := by
+  intro e he
+  unfold throughLink
+  cases hl : e.link with
+  | none => rfl
+  | some t =>
+    have := h e he (by rw [hl]; simp)
+    have hp : (e.path ++ ['/']).isPrefixOf p = false := by
+      cases hb : (e.path ++ ['/']).isPrefixOf p with
+      | false => rfl
+      | true => exact absurd (List.isPrefixOf_iff_prefix.mp hb) this
+    simp [hp]
+
 end Martian.Vdr
